@@ -79,6 +79,70 @@ def _gen_script(rng, res):
   return {'res': res, 'ops': ops}
 
 
+def _gen_pattern(rng, res):
+  """Hand-shaped skeletons around the worker's parked states, filled with random values:
+  new head while parked then everything cancelled, far deadlines (minutes), re-scheduling after a drain."""
+  unit = 250 if res >= 250 else 10
+  ops = []
+  t = T0
+  nid = [0]
+
+  def S(d):
+    nid[0] += 1
+    T = t + d
+    if res == 10 and T % 10 == 0:
+      T += rng.choice([1, 3, 7])
+    ops.append(['S', nid[0], T])
+    return nid[0]
+  kind = rng.choice(['storm', 'storm', 'far', 'far', 'drain'])
+  if kind == 'storm':
+    a = S(unit * rng.randint(6, 30))
+    ops.append(rng.choice([['adv', t + unit], ['step', rng.randint(2, 5)], ['q']]))
+    if ops[-1][0] == 'adv':
+      t += unit
+    bs = [S(unit * rng.randint(1, 4)) for _ in range(rng.randint(1, 3))]
+    if rng.random() < 0.5:
+      ops.append(['step', rng.randint(1, 3)])
+    victims = bs + [a]
+    rng.shuffle(victims)
+    for v in victims[:rng.choice([len(victims), len(victims), len(victims) - 1])]:
+      ops.append(['C', v])
+    if rng.random() < 0.5:
+      ops.append(['step', rng.randint(1, 4)])
+    for _ in range(rng.randint(1, 3)):
+      S(unit * rng.randint(0, 40) + 1)
+      if rng.random() < 0.3:
+        ops.append(['step', rng.randint(1, 3)])
+    for _ in range(3):
+      t += unit * rng.randint(5, 20)
+      ops.append(['adv', t])
+  elif kind == 'far':
+    for _ in range(rng.randint(1, 3)):
+      S(rng.choice([61000, 70000, 150000, 600000, 3600000]) + rng.randint(0, 900))
+    if rng.random() < 0.5:
+      S(unit * rng.randint(1, 10))
+    for _ in range(rng.randint(2, 6)):
+      t += rng.choice([1000, 30000, 59000, 60000, 61000, 100000])
+      ops.append(['adv', t])
+      if rng.random() < 0.3:
+        S(rng.choice([unit, 65000, 130000]))
+  else:
+    for _ in range(rng.randint(1, 3)):
+      S(unit * rng.randint(1, 5))
+    t += unit * 10
+    ops.append(['adv', t])
+    for _ in range(rng.randint(1, 3)):
+      v = S(unit * rng.randint(1, 5))
+      if rng.random() < 0.4:
+        ops.append(['C', v])
+    t += unit * 10
+    ops.append(['adv', t])
+    S(unit * 3)
+  t += 4000000
+  ops.append(['adv', t])
+  return {'res': res, 'ops': ops}
+
+
 def _gen_bulk(rng, res):
   """Many timers, most of them cancelled (incl. the head the worker is sleeping on), the rest
   must still run once, on time and in order (thresholds / compaction / long queues)."""
@@ -122,6 +186,8 @@ def cases(prop, tier, seed):
   out = []
   for i in range(40 if tier == 'quick' else 600):
     out.append(_gen_bulk(rng, [10, 0, 250][i % 3]))
+  for i in range(400 if tier == 'quick' else 8000):
+    out.append(_gen_pattern(rng, [10, 0, 250, 1000][i % 4]))
   for i in range(n):
     res = [10, 10, 0, 250, 1000][i % 5]
     out.append(_gen_script(rng, res))
